@@ -186,6 +186,18 @@ def _ev1(f, data, n, hook, memo):
         return out
     if o == 'until':
         return _until(p, q, iv, n)
+    if o == 'precedes':
+        # the pastified form of until[a,b]: at step i it looks at steps i-b..i (missing: p=+inf, q=-inf)
+        a, b = iv
+        out = []
+        for i in R:
+            gp = lambda s: p[s] if s >= 0 else INF
+            gq = lambda s: q[s] if s >= 0 else -INF
+            best = -INF
+            for j in range(a, b + 1):
+                best = tmax(best, tmin(gq(i - b + j), tmin_l([gp(i - b + k) for k in range(0, j)])))
+            out.append(best)
+        return out
     if o == 'unless':
         a, b = iv
         alw = [(INF if t >= n else tmin_l(p[t:min(t + b, n - 1) + 1])) for t in R]
